@@ -108,6 +108,13 @@ Theorem C06_lock_free_when_all_returned_with_failures :
 Proof. exact lock_free_when_all_returned. Qed.
 Print Assumptions C06_lock_free_when_all_returned_with_failures.
 
+Theorem C06_mutual_exclusion_with_failures :
+  forall fails plan sched,
+    let w := frun fails true sched (finit plan) in
+    ConcProofs.closed (fw_log w) \/ exists e t, ConcProofs.opened (fw_log w) e t.
+Proof. exact mutual_exclusion_with_failures. Qed.
+Print Assumptions C06_mutual_exclusion_with_failures.
+
 (* without that second look on the failure path (the code before the fix) the statement is false: the
    schedule below - reproduced on the real engine by the scheduler, deviation D26 - strands (1, 0) *)
 Theorem C06_stranded_without_recheck_on_failure_refuted :
